@@ -175,7 +175,8 @@ class C06(Check):
             "key-compressed", "key-hybrid", "certifier-not-a-key",
             "hex spellings of every field of the genuine chain: " + ", ".join(G.HEX_SPELLINGS),
             "genuine with leading zero bytes in: tweak HMAC (1, 2 bytes), signature r, s, message digest, "
-            "public key X, Y (whole hierarchies)"]}
+            "public key X, Y (whole hierarchies)",
+            "genuinely signed messages of every length 2..131 (quick: 14 lengths) around header + key"]}
 
     def cases(self):
         cs = []
@@ -432,6 +433,18 @@ class C06(Check):
             for am in alts:
                 run(variant(p, message=am.hex(), signature=w.sign(signer_key, tweak, am).hex()),
                     "genuine-other-message")
+            # genuinely signed messages of every length around header + key: the key (and the value) is
+            # what the documented slice of the WHOLE message gives, whatever follows or is missing
+            lens = range(2, 132) if self.thorough else (2, 33, 34, 64, 65, 66, 67, 68, 70, 73, 74, 99, 100, 131)
+            header = {"device": w.prefix, "attestation": b"\xff"}.get(name, b"")
+            filler = w.leafmsg["signer"] + w.leafmsg["ui"]
+            for ln in lens:
+                fams = [(header + pub + filler)[:ln]]                 # header, key, trailing bytes
+                if ln >= 65 and name == "device":
+                    fams.append(filler[:ln - 65] + pub)                # key at the tail
+                for am in fams:
+                    run(variant(p, message=am.hex(), signature=w.sign(signer_key, tweak, am).hex()),
+                        "genuine-message-length")
             # signatures of the other elements
             for q in range(len(path)):
                 if q != p:
